@@ -151,7 +151,37 @@ func (g *gen) value(depth int) *V {
 // slice of structs / pointers to structs / maps / taggable maps / taggable structs (homogeneous element type)
 func (g *gen) slice(depth int) *V {
 	var shape *V
-	switch g.r.Intn(11) {
+	switch g.r.Intn(16) {
+	case 11:
+		shape = g.tmap(0) // a pointer-receiver Taggable map by value: an ordinary map there
+		shape.K = "ptmap"
+	case 12:
+		shape = g.ptrTaggable() // pointer-receiver Taggable (map or struct type) ...
+		if g.r.Bool() {
+			shape = &V{K: "ptr", Elem: shape} // ... behind a pointer: honoured
+		}
+	case 13:
+		shape = g.mapv(depth - 1) // a typed map (map[string]string, map[string]S, ...) or an interface-valued one
+		if g.r.Bool() {
+			shape = &V{K: "ptr", Elem: shape}
+		}
+	case 14:
+		// a slice of slices: [][]string-like ([]strs), [][]S, [][]*S - the filter does not look into the inner slices
+		switch g.r.Intn(3) {
+		case 0:
+			shape = &V{K: "strs", Cs: []int{g.can(), g.can()}}
+			if g.r.Bool() {
+				shape.K = "bytess"
+			}
+		case 1:
+			in := g.strct(0)
+			shape = &V{K: "slice", Elem: in, Elems: []*V{in}}
+		default:
+			in := &V{K: "ptr", Elem: g.strct(0)}
+			shape = &V{K: "slice", Elem: in, Elems: []*V{in, g.cloneFresh(in)}}
+		}
+	case 15:
+		shape = &V{K: "ptr", Elem: g.unexp()}
 	case 7:
 		shape = &V{K: "ptr", Elem: g.tmap(depth - 1)} // []*TaggableMap
 	case 8:
@@ -480,8 +510,12 @@ func (g *gen) ptrTaggableHeld() *V {
 	}
 }
 
-// one of the three same-named local struct types
+// one of the same-named local struct types: "main.payload" (LocalA, LocalB, LocalC) and "main.record" (LocalD, LocalE)
 func (g *gen) local() *V {
+	return g.localOf([]string{"LocalA", "LocalB", "LocalC", "LocalD", "LocalE"}[g.r.Intn(5)])
+}
+
+func (g *gen) localOf(name string) *V {
 	strs := func(n int) *V {
 		v := &V{K: "strs"}
 		for ; n > 0; n-- {
@@ -489,13 +523,18 @@ func (g *gen) local() *V {
 		}
 		return v
 	}
-	switch g.r.Intn(3) {
-	case 0:
-		return &V{K: "hand", Hand: "LocalA", Fields: []Field{{Name: "Name", Tag: sp("public"), V: &V{K: "str", C: g.can()}}, {Name: "Token", Tag: sp("secret"), V: &V{K: "str", C: g.can()}}, {Name: "Note", Tag: sp("sensitive"), V: strs(2)}}}
-	case 1:
-		return &V{K: "hand", Hand: "LocalB", Fields: []Field{{Name: "Name", Tag: sp("secret"), V: &V{K: "str", C: g.can()}}, {Name: "Token", Tag: sp("public"), V: &V{K: "str", C: g.can()}}, {Name: "Note", Tag: sp("public"), V: strs(2)}}}
+	s := func() *V { return &V{K: "str", C: g.can()} }
+	switch name {
+	case "LocalA":
+		return &V{K: "hand", Hand: name, Fields: []Field{{Name: "Name", Tag: sp("public"), V: s()}, {Name: "Token", Tag: sp("secret"), V: s()}, {Name: "Note", Tag: sp("sensitive"), V: strs(2)}}}
+	case "LocalB":
+		return &V{K: "hand", Hand: name, Fields: []Field{{Name: "Name", Tag: sp("secret"), V: s()}, {Name: "Token", Tag: sp("public"), V: s()}, {Name: "Note", Tag: sp("public"), V: strs(2)}}}
+	case "LocalC":
+		return &V{K: "hand", Hand: name, Fields: []Field{{Name: "Name", Tag: sp("sensitive,hmac-sha256"), V: s()}, {Name: "Token", V: s()}, {Name: "Extra", Tag: sp("public"), V: s()}}}
+	case "LocalD":
+		return &V{K: "hand", Hand: name, Fields: []Field{{Name: "Key", Tag: sp("public"), V: s()}, {Name: "Note", Tag: sp("public"), V: strs(2)}, {Name: "Secret", Tag: sp("secret"), V: s()}}}
 	}
-	return &V{K: "hand", Hand: "LocalC", Fields: []Field{{Name: "Name", Tag: sp("sensitive,hmac-sha256"), V: &V{K: "str", C: g.can()}}, {Name: "Token", V: &V{K: "str", C: g.can()}}, {Name: "Extra", Tag: sp("public"), V: &V{K: "str", C: g.can()}}}}
+	return &V{K: "hand", Hand: "LocalE", Fields: []Field{{Name: "Key", Tag: sp("secret"), V: s()}, {Name: "Note", V: strs(1)}, {Name: "Secret", Tag: sp("public"), V: s()}, {Name: "Extra", Tag: sp("sensitive"), V: &V{K: "bytes", C: g.can()}}}}
 }
 
 func (g *gen) unexp() *V {
